@@ -369,7 +369,7 @@ func c07GrammarCase(t *rapid.T) {
 				if !ed.DDSketch.IsEmpty() {
 					mn, _ := ed.GetMinValue()
 					mx, _ := ed.GetMaxValue()
-					if !obs.FEq(mn, stMin) || !obs.FEq(mx, stMax) {
+					if !(mn == stMin) || !(mx == stMax) { // numeric equality: the sign of a zero extreme is not part of the format
 						t.Fatalf("C07/B exact decoder: min/max = (%v,%v), blocks say (%v,%v)", mn, mx, stMin, stMax)
 					}
 				}
